@@ -128,9 +128,10 @@ static std::string forbid_metamorphic(const std::vector<Op>& ops, unsigned perm,
   // keep the two worlds in step: nothing else may compete for F's slot / literal location while F lives
   for (size_t i = fi + 1; i < end; ++i)
     if (ops[i].kind == O_CREATE && (ops[i].at(CA_SLOT) == slot || (lit >= 0 && ops[i].at(CA_LIT) == lit))) return "";
-  // a hit on F from a nested call (made by a side effect of an accepted outer call) cannot be removed without
+  // a hit on F from a nested call (made by a side effect of an accepted outer call, or by one of the calls of a scoped
+  // block - every such hit is recorded, a block can hit several forbids) cannot be removed without
   // changing the outer call's effects: the two worlds would not stay in step
-  for (size_t i = 0; i < ops.size(); ++i) if (h.optrace[i].forbid_nested_eid == feid) return "";
+  for (size_t i = 0; i < ops.size(); ++i) for (int e : h.optrace[i].forbid_nested_eids) if (e == feid) return "";
   std::vector<Op> ops2;
   std::vector<size_t> origin;
   for (size_t i = 0; i < ops.size(); ++i) {
